@@ -13,47 +13,70 @@ def lookupErr (k : Option Str) : List (Option Str × Err) → Option Err
   | [] => none
   | (k', e) :: rest => if k' = k then some e else lookupErr k rest
 
+theorem lookupErr_eq (k : Option Str) (l : List (Option Str × Err)) :
+    lookupErr k l = Tree.lookupE k l := by
+  induction l with
+  | nil => rfl
+  | cons a l ih => obtain ⟨k', e⟩ := a; simp [lookupErr, Tree.lookupE, ih]
+
 /-- walking along any error's path reaches a node whose `errors` maps that error's keyword to an
     error with that same path — whatever the order of arrival -/
 theorem walk_finds (es : List Err) (e : Err) (he : e ∈ es) :
     ∃ n, Tree.walk (Tree.build es) e.path = some n ∧
       ∃ e', lookupErr e.kw n.errors = some e' ∧ e'.path = e.path ∧ e'.kw = e.kw := by
-  sorry
+  have hs := (Tree.walk_build_isSome_iff es e.path).mpr (Or.inr ⟨e, he, List.prefix_refl _⟩)
+  obtain ⟨n, hn⟩ := Option.isSome_iff_exists.mp hs
+  refine ⟨n, hn, ?_⟩
+  rw [lookupErr_eq, ← Tree.walk_eq_some_walkD hn, Tree.build_errors]
+  have hmem : e ∈ es.filter (fun x => decide (x.path = e.path) && decide (x.kw = e.kw)) := by
+    simp [List.mem_filter, he]
+  cases hl : (es.filter (fun x => decide (x.path = e.path) && decide (x.kw = e.kw))).getLast? with
+  | none => rw [List.getLast?_eq_none_iff] at hl; rw [hl] at hmem; cases hmem
+  | some e' =>
+    have := List.mem_of_getLast? hl
+    simp only [List.mem_filter, Bool.and_eq_true, decide_eq_true_iff] at this
+    exact ⟨e', rfl, this.2.1, this.2.2⟩
 
 /-- the error filed under a keyword at a node is the last one that arrived for that
     (path, keyword) pair -/
 theorem node_errors (es : List Err) (p : List PathElem) (n : Tree)
     (hn : Tree.walk (Tree.build es) p = some n) (k : Option Str) :
     lookupErr k n.errors = (es.filter (fun e => decide (e.path = p) && decide (e.kw = k))).getLast? := by
-  sorry
+  rw [lookupErr_eq, ← Tree.walk_eq_some_walkD hn, Tree.build_errors]
 
 /-- which paths exist in the tree: exactly the prefixes of the errors' paths -/
 theorem walk_isSome_iff (es : List Err) (p : List PathElem) :
     (Tree.walk (Tree.build es) p).isSome = true ↔ p = [] ∨ ∃ e ∈ es, p <+: e.path := by
-  sorry
+  exact Tree.walk_build_isSome_iff es p
 
 /-- membership reports exactly the next path elements that have errors beneath them -/
 theorem contains_spec (es : List Err) (p : List PathElem) (n : Tree)
     (hn : Tree.walk (Tree.build es) p = some n) (x : PathElem) :
     n.contains x = true ↔ ∃ e ∈ es, (p ++ [x]) <+: e.path := by
-  sorry
+  have h := Tree.walk_build_isSome_iff es (p ++ [x])
+  rw [Tree.walk_append, hn] at h
+  simp only [List.append_eq_nil_iff, List.cons_ne_self, and_false, false_or] at h
+  rw [← h]
+  cases hc : Tree.lookupChild x n.children <;> simp [Tree.walk, Tree.contains, hc]
 
 /-- iteration reports the same elements as membership, each once -/
 theorem keys_spec (es : List Err) (p : List PathElem) (n : Tree)
     (hn : Tree.walk (Tree.build es) p = some n) :
     n.keys.Nodup ∧ ∀ x, x ∈ n.keys ↔ n.contains x = true := by
-  sorry
+  refine ⟨?_, fun x => Tree.mem_keys_iff_lookupChild x n.children⟩
+  rw [← Tree.walk_eq_some_walkD hn]
+  exact Tree.build_nodup es p
 
 /-- `total_errors` / `len()` = number of distinct (path, keyword) pairs -/
 theorem total_errors_spec (es : List Err) :
     (Tree.build es).totalErrors = ((es.map fun e => (e.path, e.kw)).eraseDups).length := by
-  sorry
+  exact Tree.build_totalErrors es
 
 /-- the instance a node records is that of the last error filed exactly there -/
 theorem node_inst (es : List Err) (p : List PathElem) (n : Tree)
     (hn : Tree.walk (Tree.build es) p = some n) :
     n.inst = ((es.filter (fun e => decide (e.path = p))).getLast?).bind (fun e => e.info.map (·.inst)) := by
-  sorry
+  rw [← Tree.walk_eq_some_walkD hn, Tree.build_inst]
 
 /-- indexing an element without errors: an empty tree when the recorded instance has that
     element (or nothing is recorded), otherwise the instance's own lookup error -/
@@ -61,18 +84,39 @@ theorem getitem_errorfree (n : Tree) (x : PathElem) (hno : n.contains x = false)
     (∀ inst, n.inst = some inst → Tree.indexRaises inst x = none → ∃ t', n.getitem x = .ok (Tree.empty, t'))
     ∧ (n.inst = none → ∃ t', n.getitem x = .ok (Tree.empty, t'))
     ∧ (∀ inst cls, n.inst = some inst → Tree.indexRaises inst x = some cls → n.getitem x = .error cls) := by
-  sorry
+  obtain ⟨errs, ch, i⟩ := n
+  have hl : Tree.lookupChild x ch = none := by
+    simpa [Tree.contains, Tree.children] using hno
+  refine ⟨?_, ?_, ?_⟩
+  · intro inst hi hr
+    simp only [Tree.inst] at hi
+    subst hi
+    exact ⟨.node errs (ch ++ [(x, Tree.empty)]) (some inst), by simp [Tree.getitem, hl, hr]⟩
+  · intro hi
+    simp only [Tree.inst] at hi
+    subst hi
+    exact ⟨.node errs (ch ++ [(x, Tree.empty)]) none, by simp [Tree.getitem, hl]⟩
+  · intro inst cls hi hr
+    simp only [Tree.inst] at hi
+    subst hi
+    simp [Tree.getitem, hl, hr]
 
 /-- indexing an element with errors returns the child and leaves the tree unchanged -/
 theorem getitem_child (n c : Tree) (x : PathElem) (h : Tree.lookupChild x n.children = some c) :
     n.getitem x = .ok (c, n) := by
-  sorry
+  obtain ⟨errs, ch, i⟩ := n
+  simp only [Tree.children] at h
+  simp [Tree.getitem, h]
 
 /-- the order of arrival does not change what membership, iteration (as a set) and
     `total_errors` report -/
 theorem order_independent (es es' : List Err) (h : es.Perm es') :
     (Tree.build es).totalErrors = (Tree.build es').totalErrors
     ∧ ∀ p, (Tree.walk (Tree.build es) p).isSome = (Tree.walk (Tree.build es') p).isSome := by
-  sorry
+  refine ⟨?_, fun p => ?_⟩
+  · rw [total_errors_spec, total_errors_spec]
+    exact Tree.length_eraseDups_perm (h.map _)
+  · rw [Bool.eq_iff_iff, walk_isSome_iff, walk_isSome_iff]
+    simp only [h.mem_iff]
 
 end JS.Props.C17
